@@ -203,11 +203,16 @@ def run_shard(ctx):
                     mon_dsl._post_product_safe(parts, res, Product, parts)
         else:
             ast = ge.rand_prob(rng, names, dict(OPTS, marks=(i % 4 == 1)))
-            ast[3] = []
+            if i % 5 in (0, 1, 2):
+                ast[3] = []
+            else:
+                # a bare CONDITIONAL probability under the sum (ranges inside the children, across them, with a
+                # bystander name, or touching a condition): sum_a P(a, b | c) = P(b | c), the conditions stay
+                kernel.count("C13:Sum.simplify:conditional-operand")
             joint = ge.build_raw(ast)
             base = sorted({v[0] for v in ast[2]})
-            extra = [x for x in names if x not in base]
-            r = sorted(set(rng.sample(base, rng.randint(1, len(base))) + (rng.sample(extra, 1) if extra and i % 3 == 0 else [])))
+            extra = [x for x in names if x not in base and (ast[3] == [] or i % 7 == 3 or x not in {v[0] for v in ast[3]})]
+            r = sorted(set(rng.sample(base, rng.randint(1, len(base))) + (rng.sample(extra, 1) if extra and i % 3 != 1 else [])))
             if all(v[1] is None for v in ast[2] if v[0] in r):
                 s = Sum(joint, frozenset(Variable(x) for x in r))
                 _call(ctx, "Sum.simplify", lambda: s.simplify(), ge.to_src(s), lambda res, e=s: res != e, {"e": s})
